@@ -1232,6 +1232,17 @@ def add_invariant_checks(cls: ClassT) -> None:
     last_invariant = cls.__invariants__[-1]  # type: ignore
     assert isinstance(last_invariant, icontract._types.Invariant)
 
+    # The meta-class adds all the inherited invariants at once, so that all the invariants (and not only
+    # the last one) determine which functions need to be decorated.
+    check_on_call = any(
+        InvariantCheckEvent.CALL in an_invariant.check_on
+        for an_invariant in cls.__invariants__  # type: ignore
+    )
+    check_on_setattr = any(
+        InvariantCheckEvent.SETATTR in an_invariant.check_on
+        for an_invariant in cls.__invariants__  # type: ignore
+    )
+
     # Filter out entries in the directory which are certainly not candidates for decoration
     # regarding the ``last_invariant``. Note that the functions which are already decorated
     # will not be re-decorated, so that this loop runs in O( dir(cls) * len(invariants) ),
@@ -1256,16 +1267,10 @@ def add_invariant_checks(cls: ClassT) -> None:
             init_func = value
             continue
 
-        if (
-            name != "__setattr__"
-            and InvariantCheckEvent.CALL not in last_invariant.check_on
-        ):
+        if name != "__setattr__" and not check_on_call:
             continue
 
-        if (
-            name == "__setattr__"
-            and InvariantCheckEvent.SETATTR not in last_invariant.check_on
-        ):
+        if name == "__setattr__" and not check_on_setattr:
             continue
 
         if (
